@@ -175,7 +175,9 @@ int main(){
         else if(op == "partsS"){ readParts(ts, cs.H, cs.src); }
         else if(op == "partsT"){ readParts(ts, cs.H, cs.tgt); }
         else if(op == "buildtsm"){
-            cs.tree.reset(new Tree(*cs.config, cs.src, cs.tgt, kv(ts, "bs", 1), kv(ts, "mode", 0) != 0));
+            // auto=1: no block size given (TbfBlockSizeFinder::EstimateTsm decides)
+            cs.tree.reset(new Tree(*cs.config, cs.src, cs.tgt, kv(ts, "auto", 0) ? -1 : kv(ts, "bs", 1), kv(ts, "mode", 0) != 0));
+            if(kv(ts, "auto", 0)) std::cout << "B " << cs.tree->getNbElementsPerGroupSource() << " " << cs.tree->getNbElementsPerGroupTarget() << "\n";
             tagCells(*cs.tree);
         }
         else if(op == "dump" && ts.size() > 1 && ts[1] == "tsmstructure"){
